@@ -73,28 +73,76 @@ Example expand_canonical_example :
 Proof. split; reflexivity. Qed.
 
 (* ------------------------------------------------------------------ LowerRescale and the result type *)
-(* for an i8 result the body is the modelled one and well typed ... *)
+(* for an i8 result the body is the one modelled in C18Kernel.v ... *)
 Theorem rescale_result_i8_ok p :
   rescale_region_for 8 p = rescale_region p /\ yield_typed (rescale_region_for 8 p) = true.
 Proof. split; reflexivity. Qed.
 
-(* ... for every other result width the yielded value is an i8, not a value of the output type *)
-Theorem rescale_result_not_i8_ill_typed wout p :
-  rescale_result_not_i8 wout = true -> yield_typed (rescale_region_for wout p) = false.
+(* ... and for every result width the yielded value has the type of the output (repaired F-C18-3) *)
+Theorem rescale_result_typed wout p : yield_typed (rescale_region_for wout p) = true.
 Proof.
-  unfold rescale_result_not_i8. intros H.
-  change (yield_typed (rescale_region_for wout p)) with (optZ_eqb (Some 8) (Some wout)).
-  unfold optZ_eqb. lia.
+  unfold rescale_region_for. destruct (wout <? 32) eqn:E1; [|destruct (wout =? 32) eqn:E2].
+  - cbn. apply Z.eqb_refl.
+  - apply Z.eqb_eq in E2. subst. reflexivity.
+  - cbn. apply Z.eqb_refl.
 Qed.
 
-(* known finding F-C18-3: kernel.rescale (i32) -> i32 with clamp bounds +-1000 (everything else inside the safe class
-   of F18): the golden model gives 300 for x = 600, the expansion wraps it to 8 bits (44) and yields an i8 *)
+Lemma rescale_region_for_eval wout p x out :
+  0 < wout ->
+  eval_body (rescale_region_for wout p) [x; out] =
+  [if wout <? 32 then wrap wout (rescale_core p x) else rescale_core p x].
+Proof.
+  intros Hw. unfold rescale_region_for. destruct (wout <? 32) eqn:E1; [|destruct (wout =? 32) eqn:E2]; reflexivity.
+Qed.
+
+Lemma rescale_core_golden wout p x :
+  rescale_safe_w wout p x = true -> rescale_core p x = golden_rescale p x /\ in_range (Z.min wout 32) (golden_rescale p x) /\ 0 < wout.
+Proof.
+  unfold rescale_safe_w. intros H.
+  repeat (apply andb_true_iff in H as [H ?]).
+  repeat match goal with Hr : in_rangeb _ _ = true |- _ => apply in_rangeb_spec in Hr end.
+  unfold rescale_core, golden_rescale.
+  destruct (double_round p); [discriminate|].
+  set (v := x - zp_in p) in *.
+  rewrite (wrap_id 32 v) by (auto; lia).
+  set (m := v * mult p) in *.
+  rewrite (wrap_id 64 m) by (auto; lia).
+  assert (Hs : Z.shiftr m (shift p) = Z.shiftr (Z.shiftr m (shift p - 1)) 1).
+  { rewrite Z.shiftr_shiftr by lia. f_equal. lia. }
+  set (s1 := Z.shiftr m (shift p - 1)) in *.
+  rewrite (wrap_id 32 s1) by (auto; lia).
+  rewrite Hs.
+  assert (Hr : in_range 32 (Z.shiftr s1 1)).
+  { match goal with Hx : in_range 32 s1 |- _ => destruct Hx as [Hx1 Hx2] end.
+    rewrite Z.shiftr_div_pow2 by lia. unfold in_range. rewrite half_32 in *. change (2 ^ 1) with 2. lia. }
+  rewrite (wrap_id 32 (Z.shiftr s1 1)) by (auto; lia).
+  set (o := wrap 32 (Z.shiftr s1 1 + zp_out p)).
+  assert (Hc : Z.max (Z.min o (max_int p)) (min_int p) = Z.min (Z.max o (min_int p)) (max_int p)) by lia.
+  rewrite Hc. split; [reflexivity|]. split; [|lia].
+  unfold in_range in *. lia.
+Qed.
+
+(* the repaired expansion computes the golden model's value for every result width, on the safe inputs
+   (no double rounding, no intermediate overflow, clamp bounds inside the result type) *)
+Theorem rescale_for_vs_golden wout p x out :
+  rescale_safe_w wout p x = true ->
+  eval_body (rescale_region_for wout p) [x; out] = [golden_rescale p x].
+Proof.
+  intros H. destruct (rescale_core_golden wout p x H) as [Hc [Hr Hw]].
+  rewrite rescale_region_for_eval by exact Hw. rewrite Hc.
+  destruct (wout <? 32) eqn:E; [|reflexivity].
+  f_equal. apply wrap_id; [exact Hw|]. rewrite Z.min_l in Hr by lia. exact Hr.
+Qed.
+
+(* documentation of F-C18-3 (before the repair): kernel.rescale (i32) -> i32 with clamp bounds +-1000: the
+   golden model gives 300 for x = 600, the old expansion wrapped it to 8 bits (44) and yielded an i8 *)
 Theorem rescale_result_not_i8_refuted :
   exists wout p x,
-    rescale_result_not_i8 wout = true /\ double_round p = false /\
-    yield_typed (rescale_region_for wout p) = false /\
-    eval_body (rescale_region_for wout p) [x; 0] <> [golden_rescale p x].
+    rescale_result_not_i8 wout = true /\ rescale_safe_w wout p x = true /\
+    yield_typed (rescale_region_for_old wout p) = false /\
+    eval_body (rescale_region_for_old wout p) [x; 0] <> [golden_rescale p x] /\
+    eval_body (rescale_region_for wout p) [x; 0] = [golden_rescale p x].
 Proof.
   exists 32, (mkR 0 0 1 1 1000 (-1000) false), 600.
-  split; [reflexivity|]. split; [reflexivity|]. split; [reflexivity|]. vm_compute. discriminate.
+  split; [reflexivity|]. split; [reflexivity|]. split; [reflexivity|]. split; [vm_compute; discriminate|reflexivity].
 Qed.
